@@ -364,13 +364,13 @@ def race_key(block):
     return "data-race:" + (m.group(1) if m else "unknown")
 
 
-def storm(ctx, name, binary, n, seeds, timeout=1500):
-    """run TestVerifC20Storm in len(seeds) parallel processes"""
+def storm(ctx, name, binary, n, seeds, timeout=1500, test="TestVerifC20Storm", keyprefix="storm"):
+    """run a storm test (TestVerifC20Storm by default) in len(seeds) parallel processes"""
     t0 = time.time()
     procs = []
     for s in seeds:
         e = dict(os.environ, VERIF_SEED=str(s), VERIF_N=str(n))
-        procs.append((s, subprocess.Popen([binary, "-test.run", "^TestVerifC20Storm$", "-test.count=1", "-test.timeout", "%ds" % timeout],
+        procs.append((s, subprocess.Popen([binary, "-test.run", "^%s$" % test, "-test.count=1", "-test.timeout", "%ds" % timeout],
                                           cwd=vlib.REPO, env=e, stdout=subprocess.PIPE, stderr=subprocess.STDOUT, text=True, errors="replace")))
     tot = collections.Counter()
     nfail = 0
@@ -385,8 +385,8 @@ def storm(ctx, name, binary, n, seeds, timeout=1500):
         for l in out.splitlines():
             if l.startswith(("C20STUCK", "C20ORDER", "C20PANIC")):
                 nfail += 1
-                key = {"C20STUCK": "storm-stuck", "C20ORDER": "storm-delivery-order", "C20PANIC": "storm-panic"}[l.split()[0]]
-                ctx.concrete.append(dict(property=PROP, what=l[:1500], key=key, monitor=name, test="TestVerifC20Storm", env=env,
+                key = {"C20STUCK": keyprefix + "-stuck", "C20ORDER": keyprefix + "-delivery-order", "C20PANIC": keyprefix + "-panic"}[l.split()[0]]
+                ctx.concrete.append(dict(property=PROP, what=l[:1500], key=key, monitor=name, test=test, env=env,
                                          race=binary.endswith("race.test")))
             if l.startswith("C20STORM"):
                 for kv in l.split()[1:]:
@@ -395,7 +395,7 @@ def storm(ctx, name, binary, n, seeds, timeout=1500):
                         tot[k] += int(v)
         for blk in re.findall(r'WARNING: DATA RACE.*?==================', out, flags=re.S):
             nfail += 1
-            ctx.concrete.append(dict(property=PROP, what=blk[:3000], key=race_key(blk), monitor=name, test="TestVerifC20Storm", env=env, race=True))
+            ctx.concrete.append(dict(property=PROP, what=blk[:3000], key=race_key(blk), monitor=name, test=test, env=env, race=True))
         if p.returncode not in (0, 1, 66) and "C20STORM" not in out:
             ctx.broken.append(("correspondence", name, "storm run failed (rc=%s): %s" % (p.returncode, out[-1200:])))
     ctx.corr.append(dict(name=name, ok=nfail == 0, records=tot.get("api_calls", 0) + tot.get("writes", 0) + tot.get("reads", 0),
@@ -455,7 +455,7 @@ def witness(ctx):
 def correspondence(ctx):
     static_part(ctx)
     witness(ctx)
-    common = os.path.join(vlib.BUILD, "sctp.test")
+    common = vlib.harness_bin()
     rb, log = race_binary(ctx.tmp)
     if rb is None:
         ctx.notes.append("race detector build failed (cgo unavailable?), storms run without it: " + log[-400:])
@@ -466,13 +466,17 @@ def correspondence(ctx):
         storm(ctx, name, binary, 14, [ctx.seed * 100 + i for i in range(12)])
     else:
         storm(ctx, name, binary, 3, [ctx.seed * 100 + i for i in range(4)])
+    # concurrent writers on ONE stream in blocking-write mode while the write deadline is being moved: every write that
+    # returned nil must be delivered once, in each writer's order (delivery guarantees under concurrency)
+    storm(ctx, name.replace("api-storm", "blocking-write-storm"), binary, ctx.scale(4, 16),
+          [ctx.seed * 100 + 50 + i for i in range(ctx.scale(4, 12))], test="TestVerifC20BlockingStorm", keyprefix="blocking-storm")
 
 
 def search(ctx):
     """something no longer checks: look harder for a concrete failing input (the static report already ran in
     correspondence; here the storms are widened, under the race detector when it can be built)"""
     rb, log = race_binary(ctx.tmp)
-    binary = rb or os.path.join(vlib.BUILD, "sctp.test")
+    binary = rb or vlib.harness_bin()
     storm(ctx, "api-storm-search", binary, 10, [ctx.seed * 1000 + 500 + i for i in range(12)])
 
 
@@ -517,7 +521,7 @@ def replay(data):
             return 1 if hit else 0
         with vlib.Lock():
             vlib.build_harness()
-        binary = os.path.join(vlib.BUILD, "sctp.test")
+        binary = vlib.harness_bin()
         if data.get("race"):
             rb, _ = race_binary(tmp)
             binary = rb or binary
